@@ -323,3 +323,102 @@ def gate_arity_table(cd, table):
             a = len(preds[n])
             key = f"{t}/{a if a < 4 else '4+'}"
             table[key] = table.get(key, 0) + 1
+
+
+# ---------------------------------------------------------------------------
+# function-preserving rewrites (generator's own rules; never library transforms)
+# ---------------------------------------------------------------------------
+
+
+def rewrite_equiv(rng, cd, n=3, prefix="r"):
+    """Return an equivalent-but-restructured copy: every original node keeps its
+    name and its function of the inputs; fresh helper nodes are called r<k>."""
+    nodes = [list(x) for x in cd["nodes"]]
+    edges = [list(e) for e in cd["edges"]]
+    names = {x[0] for x in nodes}
+    cnt = [0]
+
+    def fresh():
+        while True:
+            nm = f"{prefix}{cnt[0]}"
+            cnt[0] += 1
+            if nm not in names:
+                names.add(nm)
+                return nm
+
+    def tp(n):
+        for x in nodes:
+            if x[0] == n:
+                return x[1]
+
+    def settype(n, t):
+        for x in nodes:
+            if x[0] == n:
+                x[1] = t
+
+    def preds(n):
+        return [u for u, v in edges if v == n]
+
+    for _ in range(n):
+        gates = [x[0] for x in nodes if x[1] in ALL_GATES and preds(x[0])]
+        if not gates:
+            break
+        g = rng.choice(gates)
+        t = tp(g)
+        ps = preds(g)
+        rule = rng.choice(["demorgan", "dneg", "buf", "split_inv", "regroup"])
+        if rule == "demorgan" and t in ("and", "or", "nand", "nor") and len(ps) >= 1:
+            dual = {"and": "nor", "or": "nand", "nand": "or", "nor": "and"}[t]
+            for p in ps:
+                nn = fresh()
+                nodes.append([nn, "not", False])
+                edges.remove([p, g])
+                edges.append([p, nn])
+                edges.append([nn, g])
+            settype(g, dual)
+        elif rule == "dneg" and ps:
+            p = rng.choice(ps)
+            a, b = fresh(), fresh()
+            nodes.append([a, "not", False])
+            nodes.append([b, "not", False])
+            edges.remove([p, g])
+            edges += [[p, a], [a, b], [b, g]]
+        elif rule == "buf" and ps:
+            p = rng.choice(ps)
+            a = fresh()
+            nodes.append([a, rng.choice(["buf", "and", "or", "xor"]), False])
+            edges.remove([p, g])
+            edges += [[p, a], [a, g]]
+        elif rule == "split_inv" and t in ("nand", "nor", "xnor") and len(ps) >= 2:
+            base = {"nand": "and", "nor": "or", "xnor": "xor"}[t]
+            a = fresh()
+            nodes.append([a, base, False])
+            for p in ps:
+                edges.remove([p, g])
+                edges.append([p, a])
+            edges.append([a, g])
+            settype(g, "not")
+        elif rule == "regroup" and t in GATESN and len(ps) >= 3:
+            base = {"and": "and", "nand": "and", "or": "or", "nor": "or", "xor": "xor", "xnor": "xor"}[t]
+            a = fresh()
+            nodes.append([a, base, False])
+            p1, p2 = rng.sample(ps, 2)
+            edges.remove([p1, g])
+            edges.remove([p2, g])
+            edges += [[p1, a], [p2, a], [a, g]]
+    return {"name": cd["name"], "nodes": nodes, "edges": edges, "bbs": dict(cd["bbs"])}
+
+
+def mutate_gate(rng, cd):
+    """Change the type of one gate (may or may not change the function)."""
+    nodes = [list(x) for x in cd["nodes"]]
+    preds = cd_preds(cd)
+    gates = [x for x in nodes if x[1] in ALL_GATES and preds[x[0]]]
+    if not gates:
+        return cd, None
+    x = rng.choice(gates)
+    if x[1] in GATES1:
+        x[1] = "buf" if x[1] == "not" else "not"
+    else:
+        x[1] = rng.choice([t for t in GATESN if t != x[1]])
+    return {"name": cd["name"], "nodes": nodes, "edges": [list(e) for e in cd["edges"]], "bbs": dict(cd["bbs"])}, x[0]
